@@ -40,6 +40,10 @@ class Gen:
         self.rng = rng
         self.f = feats
         self.counter = 0
+        # programs with "touchy" values: results (and arguments) that may only be passed on - see sym.Touchy.  In such a program
+        # every variable that might hold one (results of touchy functions, parameters, results of nested DAGs) stays out of the
+        # positions where plain Python itself looks at the value: activation flags, and_ / or_ / not_, operators, indexes
+        self.touchy = rng.random() < feats.get("touchy", 0.15)
 
     def fresh(self, pfx):
         self.counter += 1
@@ -51,6 +55,8 @@ class Gen:
         for _ in range(nfn):
             name = self.fresh(pfx + "f")
             shape = rng.choice([None, None, None, ["tuple", rng.randint(1, 3)], ["list", 2], ["dict"], ["tdict"]])
+            if self.touchy and rng.random() < 0.35:
+                shape = ["touchy"]
             unpack = shape[1] if shape and shape[0] in ("tuple", "list") and rng.random() < 0.6 else None
             specs[name] = dict(
                 shape=shape, unpack_to=unpack, priority=rng.choice([0, 0, 1, 5, -1, 3]),
@@ -70,11 +76,11 @@ class Gen:
         params = ["%s_x%d" % (name, i) for i in range(nparams)]
         defaults = {p: rng.choice(CONSTS) for p in params[nparams - ndef:]}
         prog = dict(name=name, params=params, defaults=defaults, fns=specs, inner={}, stmts=[], ret=None,
-                    flagfree=True, depth=depth)
+                    flagfree=True, depth=depth, touchy=self.touchy)
         # variables: name -> dict(shape, maybe_none, plain (known to be a term: usable in operators), elem (unpacked element))
         vars_ = {}
         for p in params:
-            vars_[p] = dict(shape=None, maybe_none=False, plain=False, elem=False, param=True)
+            vars_[p] = dict(shape=None, maybe_none=False, plain=False, elem=False, param=True, touchy=self.touchy)
         vi = [0]
         site = [0]
         # (plain Python evaluates an argument expression even when the call is then deactivated, a DAG does not: bad indexes are
@@ -85,7 +91,7 @@ class Gen:
             vi[0] += 1
             return "%s_v%d" % (name, vi[0])
 
-        def pick(allow_const=True, for_op=False, for_flag=False, whole=False, results_only=False):
+        def pick(allow_const=True, for_op=False, for_flag=False, whole=False, results_only=False, no_touchy=False):
             if for_flag and rng.random() < f.get("const_flag", 0.0):
                 return repr(rng.choice(FALSY_TRUTHY))  # (workloads that stress CONSTANT flags: their helper nodes carry ids too)
             cands = []
@@ -93,6 +99,8 @@ class Gen:
                 if for_op and (info["maybe_none"] or not info["plain"]):
                     continue
                 if results_only and info.get("param"):
+                    continue
+                if (for_flag or no_touchy) and info.get("touchy"):
                     continue
                 cands.append(v)
             if cands and (not allow_const or rng.random() < 0.78):
@@ -156,7 +164,10 @@ class Gen:
             if r < f.get("ops", 0.15) + f.get("bools", 0.08) and vars_:
                 t = newvar()
                 fn = rng.choice(["and_", "or_", "not_"])
-                args = [pick(False)] if fn == "not_" else [pick(False), pick()]
+                nt = self.touchy
+                if nt and not any(not i.get("touchy") for i in vars_.values()):
+                    continue
+                args = [pick(False, no_touchy=nt)] if fn == "not_" else [pick(False, no_touchy=nt), pick(no_touchy=nt)]
                 prog["stmts"].append(dict(t=[t], op="bool", fn=fn, args=args))
                 vars_[t] = dict(shape=None, maybe_none=True, plain=False, elem=False)
                 continue
@@ -190,7 +201,7 @@ class Gen:
                     st["t"] = ts
                     st["unpack"] = len(ts)
                     for t, it in zip(ts, items):
-                        vars_[t] = dict(shape=None, maybe_none=True, plain=False, elem=True)
+                        vars_[t] = dict(shape=None, maybe_none=True, plain=False, elem=True, touchy=self.touchy)
                 else:
                     t = newvar()
                     st["t"] = [t]
@@ -198,18 +209,19 @@ class Gen:
                     if kind in ("tuple", "list", "dict"):
                         whole_containers.append(t)
                     # the value is a python container of results: only usable whole or by a static index
-                    vars_[t] = dict(shape=None, maybe_none=True, plain=False, elem=False, container=(kind, items if kind != "dict" else list(items)))
+                    vars_[t] = dict(shape=None, maybe_none=True, plain=False, elem=False, container=(kind, items if kind != "dict" else list(items)),
+                                    touchy=self.touchy)
                     if kind in ("tuple", "list", "dict") and not mn:
                         # expose elements as separate "variables" through static indexing
                         keys = list(range(len(items))) if kind != "dict" else list(items)
                         for k in keys[:3]:
-                            vars_["%s[%r]" % (t, k)] = dict(shape=None, maybe_none=True, plain=False, elem=True)
+                            vars_["%s[%r]" % (t, k)] = dict(shape=None, maybe_none=True, plain=False, elem=True, touchy=self.touchy)
                         del vars_[t]
                     elif kind in ("tuple", "list", "dict"):
                         # flagged: dead value is a container of None - usable only as a static element
                         keys = list(range(len(items))) if kind != "dict" else list(items)
                         for k in keys[:3]:
-                            vars_["%s[%r]" % (t, k)] = dict(shape=None, maybe_none=True, plain=False, elem=True)
+                            vars_["%s[%r]" % (t, k)] = dict(shape=None, maybe_none=True, plain=False, elem=True, touchy=self.touchy)
                         del vars_[t]
                     elif kind == "none":
                         del vars_[t]
@@ -247,7 +259,8 @@ class Gen:
             else:
                 t = newvar()
                 st["t"] = [t]
-                vars_[t] = dict(shape=sp["shape"], maybe_none=will_flag, plain=(not will_flag and sp["shape"] is None), elem=False)
+                vars_[t] = dict(shape=sp["shape"], maybe_none=will_flag, plain=(not will_flag and sp["shape"] is None), elem=False,
+                                touchy=bool(sp["shape"]) and sp["shape"][0] == "touchy")
             prog["stmts"].append(st)
         # return
         # (an inner DAG may hand one of its REQUIRED parameters straight through: a pass-through output - None when the nested
